@@ -847,7 +847,12 @@ async fn run_case(ops: &[String], db_path: &str, res: &mut CaseResult) -> Result
                 verdict = match real_rows(&node.agent, &t, n).await {
                     Ok(()) => "ok".into(),
                     Err(e) if e == "no such table" => "err no-table".into(),
-                    Err(e) => format!("err insert:{}", e.replace(' ', "_")),
+                    Err(e) => {
+                        // the table exists: whatever schema submissions came before, the node must be able to write to it
+                        res.oracle_failures.push(format!("the node cannot write to table {t} of its schema: {e}"));
+                        res.tags.push("insert-failed".into());
+                        format!("err insert:{}", e.replace(' ', "_"))
+                    }
                 };
             }
             Some("restart") if toks.len() == 1 => {
@@ -1037,8 +1042,9 @@ fn valid_edit(rng: &mut Rng, t: &GTab) -> GTab {
     match rng.below(7) {
         0 | 1 => {
             // one or two new columns, appended or written somewhere in the middle
+            // a generated column copies a column that exists already (ALTER TABLE adds the new columns one by one)
+            let stored: Vec<String> = t.tab.cols.iter().filter(|c| c.generated.is_none()).map(|c| c.name.clone()).collect();
             for _ in 0..rng.range(1, 2) {
-                let stored: Vec<String> = g.tab.cols.iter().filter(|c| c.generated.is_none()).map(|c| c.name.clone()).collect();
                 let name = next_col_name(&g);
                 let c = fresh_col(rng, name, &stored, true);
                 if rng.chance(1, 2) {
@@ -1269,6 +1275,12 @@ fn gen_sequence(rng: &mut Rng, tier: Tier, _index: usize) -> Vec<String> {
             let l = line("submit", &stmts);
             last_valid = Some(l.clone());
             ops.push(l);
+            if rng.chance(1, 2) {
+                // write to the table that was just created
+                let k = cur.len() - 1;
+                cur[k].rows += 1;
+                ops.push(format!("rows {} 1", cur[k].tab.name));
+            }
         } else if roll < 50 {
             // valid edits of one or two existing tables, sometimes together with a new table
             let mut stmts = vec![];
@@ -1311,7 +1323,7 @@ fn gen_sequence(rng: &mut Rng, tier: Tier, _index: usize) -> Vec<String> {
                 next_tab += 1; // the name is burnt: the table must not exist afterwards
                 stmts.extend(g_stmts(&g));
             }
-            if cur.len() > 1 && rng.chance(1, 4) {
+            if cur.len() > 1 && rng.chance(1, 2) {
                 let k2 = (k + 1) % cur.len();
                 stmts.extend(g_stmts(&valid_edit(rng, &cur[k2])));
             }
